@@ -10,7 +10,7 @@ LEVEL = "exploration"
 RULE = ("exhaustive over the finite parts: all 4096 positions of VOCAB_LIST against the published layout written as block formulas "
         "(and the SHA-256 of the list at the pinned commit), VOCAB_TOKEN_TO_INDEX as its inverse, all ids 0..4095 through decode/"
         "encode, unknown ids {4096, 10^6, -1, -4096, -4097} and unknown tokens must raise TokenError; random token sequences (list "
-        "and space-joined) through encode/decode; the 3 legacy modes x every max_grid_size 1..50 (duplicate-free token list, inverse "
+        "and space-joined) through encode/decode; the 3 legacy modes x every max_grid_size 1..50, each built in ascending, descending and random order of sizes within one process (duplicate-free token list, inverse "
         "map, row-major order for the rasterized mode, prefix property for the corner-first mode, codec inverse + TokenError); "
         "corner_first_ndindex(n) a permutation of the n^2 cells and a prefix of corner_first_ndindex(m) for all n<m<=50. "
         "non-trivial & distinct = distinct (check kind, parameters) evaluations")
@@ -18,8 +18,8 @@ ASSUMPTIONS = ["the published layout is the one of the pinned commit (block orde
 EXHAUSTIVE = {"quick": True, "thorough": True}
 NSHARDS = {"quick": 4, "thorough": 8}
 THRESHOLDS = {"quick": {"c14:positions": 4096, "c14:ids": 4096, "c14:unknown-id": 5, "c14:unknown-token": 20,
-                        "c14:random-seq": 500, "c14:legacy-vocab": 150, "c14:prefix-pairs": 1225, "c14:legacy-unknown": 100,
-                        "c14:legacy-codec": 150, "c14:cf-perm": 50}}
+                        "c14:random-seq": 500, "c14:legacy-vocab": 450, "c14:legacy-vocab:descending": 150, "c14:legacy-vocab:random": 150, "c14:prefix-pairs": 1225, "c14:legacy-unknown": 100,
+                        "c14:legacy-codec": 450, "c14:cf-perm": 50}}
 THRESHOLDS["thorough"] = dict(THRESHOLDS["quick"])
 ANCHORS = ["maze_dataset.utils:corner_first_ndindex",
            "maze_dataset.tokenization.maze_tokenizer:MazeTokenizer._token_arr",
@@ -135,63 +135,78 @@ def run(ctx):
             ctx.check(tok.decode(arr) == toks, "C14/decode-ndarray-wrong", "", dict(ids=ids))
         if j < 2:
             ctx.sample(dict(kind="random-seq", ids=ids[:8], tokens=toks[:8]))
-    # legacy vocabularies
-    k = 0
-    prev_uniform = None
-    vocabs = {}
-    for mode in TokenizationMode:
-        for n in range(1, 51):
-            k += 1
-            if not ctx.mine(k):
-                continue
-            case = dict(mode=mode.value, max_grid_size=n)
-            with ctx.guard("C14/legacy-vocab", case):
-                lt = MazeTokenizer(tokenization_mode=mode, max_grid_size=n)
-                arr = list(lt.token_arr)
-                mp = lt.tokenizer_map
-                ctx.ev(); ctx.tally("c14:legacy-vocab"); ctx.nontrivial("legacy", mode.value, n)
-                ctx.check(len(set(arr)) == len(arr), "C14/legacy-vocab-duplicates", f"{len(arr) - len(set(arr))} duplicates", case)
-                ctx.check(len(mp) == len(arr) and all(mp[t] == i for i, t in enumerate(arr)), "C14/legacy-map-not-inverse", "", case)
-                ctx.check(arr[:11] == SPECIALS, "C14/legacy-specials-not-first", f"{arr[:11]}", case)
-                ctx.check(lt.vocab_size == len(arr), "C14/legacy-vocab-size", "", case)
-                coords = arr[11:]
-                if mode == TokenizationMode.AOTP_UT_rasterized:
-                    exp = [f"({r},{c})" for r in range(n) for c in range(n)]
-                    ctx.check(coords == exp, "C14/rasterized-not-row-major", f"{coords[:8]}", case)
-                elif mode == TokenizationMode.AOTP_UT_uniform:
-                    exp = [f"({r},{c})" for r, c in corner_first(n)]
-                    ctx.check(coords == exp, "C14/uniform-not-corner-first", f"{coords[:10]}", case)
-                    ctx.check(arr == layout[:11] + layout[1596:1596 + n * n], "C14/uniform-not-prefix-of-modular-coord-block", "", case)
-                else:
-                    exp = ["(", ",", ")"] + [str(i) for i in range(n)]
-                    ctx.check(coords == exp, "C14/ctt-indexed-vocab-wrong", f"{coords[:8]}", case)
-                # codec
-                rng = ctx.sub_rng("legacy", mode.value, n)
-                ids = [int(x) for x in rng.integers(0, len(arr), size=30)]
-                toks = [arr[i] for i in ids]
-                ctx.tally("c14:legacy-codec")
-                ctx.check(lt.decode(ids) == toks and lt.encode(toks) == ids and lt.encode(" ".join(toks)) == ids
-                          and lt.decode(ids, joined_tokens=True) == " ".join(toks), "C14/legacy-codec-not-inverse", "", case)
-                ctx.check(lt.encode(lt.decode(list(range(len(arr))))) == list(range(len(arr))), "C14/legacy-codec-not-inverse-all", "", case)
-                for bad in (len(arr), len(arr) + 7, -1, -len(arr), -len(arr) - 1):
-                    ctx.tally("c14:legacy-unknown")
-                    # the statement promises the token error only for the modular vocabulary: observed, not judged
-                    try:
-                        lt.decode([bad])
-                        ctx.tally("c14:legacy-unknown-id-accepted(not judged)")
-                    except Exception:  # noqa: BLE001
-                        pass
-                for badtok in (f"({n},0)" if mode != TokenizationMode.AOTP_CTT_indexed else str(n), "<NOPE>"):
-                    try:
-                        lt.encode([badtok])
-                        ctx.tally("c14:legacy-unknown-token-accepted(not judged)")
-                    except Exception:  # noqa: BLE001
-                        pass
+    # legacy vocabularies: every (mode, size) is built three times in this process - in ascending, descending and a random
+    # order of sizes - so that a vocabulary that depends on which other tokenizers were built before is seen
+    def legacy_case(mode, n, order_tag):
+        case = dict(mode=mode.value, max_grid_size=n, construction_order=order_tag)
+        with ctx.guard("C14/legacy-vocab", case):
+            lt = MazeTokenizer(tokenization_mode=mode, max_grid_size=n)
+            arr = list(lt.token_arr)
+            mp = lt.tokenizer_map
+            ctx.ev(); ctx.tally("c14:legacy-vocab"); ctx.tally(f"c14:legacy-vocab:{order_tag}"); ctx.nontrivial("legacy", mode.value, n)
+            ctx.check(len(set(arr)) == len(arr), "C14/legacy-vocab-duplicates", f"{len(arr) - len(set(arr))} duplicates", case)
+            ctx.check(len(mp) == len(arr) and all(mp[t] == i for i, t in enumerate(arr)), "C14/legacy-map-not-inverse", "", case)
+            ctx.check(arr[:11] == SPECIALS, "C14/legacy-specials-not-first", f"{arr[:11]}", case)
+            ctx.check(lt.vocab_size == len(arr), "C14/legacy-vocab-size", "", case)
+            coords = arr[11:]
+            if mode == TokenizationMode.AOTP_UT_rasterized:
+                exp = [f"({r},{c})" for r in range(n) for c in range(n)]
+                ctx.check(coords == exp, "C14/rasterized-not-row-major", f"{coords[:8]}", case)
+            elif mode == TokenizationMode.AOTP_UT_uniform:
+                exp = [f"({r},{c})" for r, c in corner_first(n)]
+                ctx.check(coords == exp, "C14/uniform-not-corner-first", f"{coords[:10]}", case)
+                ctx.check(arr == layout[:11] + layout[1596:1596 + n * n], "C14/uniform-not-prefix-of-modular-coord-block", "", case)
+            else:
+                exp = ["(", ",", ")"] + [str(i) for i in range(n)]
+                ctx.check(coords == exp, "C14/ctt-indexed-vocab-wrong", f"{coords[:8]}", case)
+            # codec
+            rng = ctx.sub_rng("legacy", mode.value, n)
+            ids = [int(x) for x in rng.integers(0, len(arr), size=30)]
+            toks = [arr[i] for i in ids]
+            ctx.tally("c14:legacy-codec")
+            ctx.check(lt.decode(ids) == toks and lt.encode(toks) == ids and lt.encode(" ".join(toks)) == ids
+                      and lt.decode(ids, joined_tokens=True) == " ".join(toks), "C14/legacy-codec-not-inverse", "", case)
+            ctx.check(lt.encode(lt.decode(list(range(len(arr))))) == list(range(len(arr))), "C14/legacy-codec-not-inverse-all", "", case)
+            # every in-grid coordinate token is known and maps to its position
+            if mode != TokenizationMode.AOTP_CTT_indexed:
+                want = [f"({r},{c})" for r in range(n) for c in range(n)]
+                ctx.check(all(t in mp for t in want) and len(coords) == n * n, "C14/legacy-vocab-misses-in-grid-coordinate",
+                          lambda: f"missing {[t for t in want if t not in mp][:5]}", case)
+            for bad in (len(arr), len(arr) + 7, -1, -len(arr), -len(arr) - 1):
+                ctx.tally("c14:legacy-unknown")
+                # the statement promises the token error only for the modular vocabulary: observed, not judged
+                try:
+                    lt.decode([bad])
+                    ctx.tally("c14:legacy-unknown-id-accepted(not judged)")
+                except Exception:  # noqa: BLE001
+                    pass
+            for badtok in (f"({n},0)" if mode != TokenizationMode.AOTP_CTT_indexed else str(n), "<NOPE>"):
+                try:
+                    lt.encode([badtok])
+                    ctx.tally("c14:legacy-unknown-token-accepted(not judged)")
+                except Exception:  # noqa: BLE001
+                    pass
+
+    modes = list(TokenizationMode)
+    mine_pairs = [(mode, n) for mi, mode in enumerate(modes) for n in range(1, 51) if ctx.mine(mi * 50 + n)]
+    for order_tag in ("ascending", "descending", "random"):
+        pairs = list(mine_pairs)
+        if order_tag == "descending":
+            pairs = pairs[::-1]
+        elif order_tag == "random":
+            pairs = [pairs[int(i)] for i in ctx.sub_rng("legacy-order").permutation(len(pairs))]
+        for mode, n in pairs:
+            legacy_case(mode, n, order_tag)
     # corner-first ordering: permutation + prefix property for all pairs
     cf = {}
     for n in range(1, 51):
         with ctx.guard("C14/corner_first_ndindex", dict(n=n)):
             cf[n] = [tuple(int(x) for x in t) for t in corner_first_ndindex(n)]
+    for n in list(range(50, 0, -1)) + [int(x) for x in ctx.sub_rng("cf-order").permutation(50) + 1]:
+        # again in descending and random order: the answer may not depend on what was asked before
+        with ctx.guard("C14/corner_first_ndindex", dict(n=n)):
+            again = [tuple(int(x) for x in t) for t in corner_first_ndindex(n)]
+            ctx.check(again == cf.get(n), "C14/corner-first-depends-on-history", f"n={n}: second call differs from the first", dict(n=n))
     for n in range(1, 51):
         if not ctx.mine(n) or n not in cf:
             continue
